@@ -3,8 +3,11 @@ project(model): the abstraction function used by the conformance checks."""
 from .rat import f
 
 
+SNAME_ALT = False      # c14: species 1 is called "S", so that its name is a prefix of every other species name (S, S2, S3)
+
+
 def sname(i):
-    return "S%d" % i
+    return "S" if (SNAME_ALT and i == 1) else "S%d" % i
 
 
 def law_dict(law, idx, named, params_out, explicit_species=False, kname=None):
